@@ -295,6 +295,10 @@ func newConn(conn net.Conn, isServer bool, readBufferSize, writeBufferSize int, 
 
 	if writeBufferSize <= 0 {
 		writeBufferSize = defaultWriteBufferSize
+	} else if writeBufferSize < maxControlFramePayloadSize {
+		// must be large enough for control frame: a control message cannot be
+		// fragmented, so its payload has to fit in one frame's buffer.
+		writeBufferSize = maxControlFramePayloadSize
 	}
 	writeBufferSize += maxFrameHeaderSize
 
